@@ -517,6 +517,11 @@ def pool(r):
         P.append("ns0")
     if k in (2, 3):
         P.append("ns1")
+    # prefixes that merely START with "xml" (ElemAttribute tests startsWith(name, "xml")), and an upper-case look-alike
+    if r.chance(1, 4):
+        P.append("xmlq")
+    if r.chance(1, 8):
+        P.append("XMLq")
     return P
 URI = ["urn:a", "urn:b", "urn:c"]
 LOC = ["e", "f", "g"]
@@ -636,6 +641,8 @@ def gen_case(r, size=None):
                     ns = r.weighted([(r.choice(URI), 8), ("", 1)])
                     if r.chance(1, 2):
                         p = r.choice(P + [""])
+                if r.chance(1, 16):
+                    p = "xml"          # xml:x without namespace (XML namespace) or with an explicit other namespace
                 i = {"k": "A", "name": (p + ":" if p else "") + r.choice(ALOC), "ns": ns, "value": "v" + str(r.below(9))}
                 if r.chance(1, 6):
                     i["cn"] = True
